@@ -201,6 +201,13 @@ def f_base_client_class_missing(c):
 f_base_client_class_missing.applies = "client"
 
 
+def f_base_client_class_missing_with_plugin(c):
+    """Whether plugins are configured has no bearing on when the base client class is checked."""
+    f_base_client_class_missing(c)
+    c.cfg["plugins"] = list(c.cfg.get("plugins") or []) + ["ariadne_codegen.contrib.no_reimports.NoReimportsPlugin"]
+f_base_client_class_missing_with_plugin.applies = "client"
+
+
 def f_base_client_name_bad(c):
     with open(os.path.join(c.root, "my_base.py"), "w") as f:
         f.write("class My-Base:\n    pass\n")
@@ -739,6 +746,7 @@ FAULTS: Dict[str, Callable] = {
     "config:queries_path_missing": f_queries_path_missing, "config:queries_path_absent": f_queries_path_absent,
     "config:base_client_file_missing": f_base_client_file_missing, "config:base_client_file_is_dir": f_base_client_file_is_dir,
     "config:base_client_class_missing": f_base_client_class_missing, "config:base_client_name_bad": f_base_client_name_bad,
+    "config:base_client_class_missing_with_plugin": f_base_client_class_missing_with_plugin,
     "config:include_file_missing": f_include_file_missing, "config:include_file_is_dir": f_include_file_is_dir,
     "config:target_path_missing": f_target_path_missing, "config:target_path_is_file": f_target_path_is_file,
     "config:unknown_comments": f_unknown_comments, "config:scalar_without_type": f_scalar_without_type,
